@@ -20,6 +20,8 @@ func checkC12(c *Ctx) {
 	c12BIP66(c, prog)
 	c12Builders(c, prog)
 	c12ASN1PublicKey(c, prog)
+	// the Bitcoin entry point strips the sighash byte itself: its envelope and bounds are this property's subject too
+	c07Bitcoin(c, prog)
 	c.R.Explanation = "Parsers and builders are abstractly interpreted against a specification of cryptobyte's strict-DER reader (element kind K read from s: succeeds iff K_ok(s), yields K_val(s), leaves rest(K,s)). ParseASN1Signature accepts exactly: one SEQUENCE, nothing after it, two INTEGERs read in the minimal non-negative []byte form, nothing after them, each converted by bytesToCanonicalScalar (validated for every length 0..32 and > 32: zero-extension on the left, canonical decode) and non-zero. The compact parsers accept exactly 64/65-byte strings with canonical non-zero halves and return d[0:32], d[32:64], d[64]. The BIP-66 predicate, extracted from the control-flow graph as a propositional formula over 18 atoms, is equivalent to the BIP's reference predicate (14 rejection rules); every data[i] in it and every slice / slice-to-array conversion in the parsers is proven in bounds from the dominating checks by linear entailment (Fourier-Motzkin). Builders emit SEQUENCE{INTEGER(OS2IP(Bytes r)), INTEGER(OS2IP(Bytes s))}, Bytes(r)||Bytes(s)[||v] and SEQUENCE{SEQUENCE{1.2.840.10045.2.1, 1.3.132.0.10}, BIT STRING(uncompressed bytes)}, i.e. what the parsers accept. ParseASN1PublicKey accepts exactly the strict SubjectPublicKeyInfo structure with both OIDs, a BIT STRING without unused bits, and a valid SEC 1 key (C10/C06); no panic is reachable in any parser."
 	c.R.Assumptions = []string{"x/crypto v0.11.0 cryptobyte reads strict DER as documented (definite minimal lengths; ReadASN1Integer into []byte = minimal non-negative magnitude; BIT STRING padding bits zero); AddASN1BigInt emits the minimal INTEGER", "C02 (canonical scalar decode), C10 / C06 (NewPublicKey)", "panics inside the standard library / x/crypto are not analysed"}
 }
